@@ -206,8 +206,29 @@ def r25d(ctx, run):
     lc = ctx.syn.fn("LineIndex::line_col", L)
     idxf = [f for f in ctx.syn.fns_in(L) if f.qual.endswith("::index") and f.body is not None and not f.in_test][0]
 
+    class Cell:
+        """the state of an iterator adapter handed to its closure as `&mut`"""
+        def __init__(self, v):
+            self.v = v
+
     class CI(SymInterp):
         def eval(self, e, env):
+            if e["k"] == "un" and e.get("op") == "*":
+                inner = self.eval(e["e"], env)
+                if isinstance(inner, Cell):
+                    return inner.v
+            if e["k"] == "bin" and e.get("op", "").endswith("=") and e["op"] not in ("==", "!=", "<=", ">=") and e["l"].get("k") == "un" and e["l"].get("op") == "*":
+                tgt = self.eval(e["l"]["e"], env)
+                if isinstance(tgt, Cell):
+                    tgt.v = self.binop(e["op"][:-1], tgt.v, self.eval(e["r"], env), e)
+                    return None
+            if e["k"] == "assign" and e["l"].get("k") == "un" and e["l"].get("op") == "*":
+                tgt = self.eval(e["l"]["e"], env)
+                if isinstance(tgt, Cell):
+                    tgt.v = self.eval(e["r"], env)
+                    return None
+            if e["k"] == "path" and e["p"] in self.funcs and e["p"] not in env:
+                return ("pyfunc", lambda *a, f_=self.funcs[e["p"]]: f_(self, list(a)))
             if e["k"] == "cast":
                 v = self.eval(e["e"], env)
                 if isinstance(v, int) and not isinstance(v, bool):
@@ -262,16 +283,34 @@ def r25d(ctx, run):
                     return len(recv.encode())
                 if m == "len_utf8":
                     return len(recv.encode())
-                if m in ("lines", "split"):
-                    return recv.split("\n") if m == "lines" or args[0] == "\n" else recv.split(args[0])
+                if m == "lines":
+                    # str::lines: split at \n, a trailing \r of a line is dropped too, no empty last line after a final newline
+                    parts = recv.split("\n")
+                    if parts and parts[-1] == "":
+                        parts.pop()
+                    return [x[:-1] if x.endswith("\r") else x for x in parts]
+                if m == "split":
+                    return recv.split(args[0])
                 if m == "split_inclusive":
                     return [x for x in recv.splitlines(True)]
             if isinstance(recv, list):
                 if m == "chain" and isinstance(args[0], list):
                     return recv + args[0]
-                if m == "scan":
-                    st, out = [args[0]], []
-                    raise CannotEstablish("scan")
+                if m == "scan" and len(args) == 2:
+                    cell, out = Cell(args[0]), []
+                    for x in recv:
+                        r_ = self.call_closure(args[1], [cell, x])
+                        if r_ is None:
+                            break
+                        out.append(r_)
+                    return out
+                if m == "take_while" and len(args) == 1:
+                    out = []
+                    for x in recv:
+                        if self.call_closure(args[0], [x]) is not True:
+                            break
+                        out.append(x)
+                    return out
                 if m == "partition_point":
                     n = 0
                     for x in recv:
